@@ -460,8 +460,16 @@ class SuperSpeedStreamInEndpoint(Elaboratable):
                                 m.next = "WAIT_TO_SEND"
 
                         # If neither of the above conditions are true; we now don't have enough data to send.
-                        # We'll wait for enough data to transmit.
+                        # We'll wait for enough data to transmit. The previous packet has still been acknowledged,
+                        # so our sequence number advances; and if this ACK also requested more data, we have to
+                        # tell the host we have none (after which it'll wait for our ERDY).
                         with m.Else():
+                            m.d.comb += advance_sequence.eq(1)
+
+                            with m.If(is_in_token):
+                                m.d.comb += handshakes_out.send_nrdy  .eq(1)
+                                m.d.ss   += erdy_required             .eq(1)
+
                             m.next = "WAIT_FOR_DATA"
 
         return m
